@@ -23,7 +23,7 @@ def lines_leg(ctx, parent, corr_broken):
     out = os.path.join(ctx.work, "tf_lines")
     os.makedirs(out, exist_ok=True)
     rc, log = ctx.run_cmd([parent, "-test.run", "^TestVerifToFileLines$", "-test.count=1", "-test.timeout=0"], timeout=600,
-                          env={"VERIF_SEED": ctx.seed, "VERIF_OUT": out})
+                          env={"VERIF_SEED": ctx.seed, "VERIF_OUT": out, "VERIF_N": ctx.budget(24, 300)})
     if rc != 0 or "ORACLE-DONE lines" not in log:
         ctx.log("lines harness failed:\n" + log[-1500:])
         corr_broken.append("lines harness exit %s" % rc)
@@ -66,6 +66,10 @@ def lines_leg(ctx, parent, corr_broken):
             what = ("nsq_to_file: two topics with a --filename-format without <TOPIC> append to one plain file (O_APPEND); router 1 was "
                     "between Write(body) and Write(\"\\n\") when router 2 appended its record: FINished message(s) %s are not a line of "
                     "the file (Lean: Props.C19Lines.shared_file_unfixed_witness; with fix F46 shared_file_lines_fixed)" % missing)
+        elif r["case"].startswith("gen-") and "torn=true" not in _unhex(r["notes"]).decode("latin1"):
+            key = "lines-generated-append"
+            what = ("nsq_to_file: generated plain-append script (initial file absent / empty / newline-terminated): FINished message(s) %r "
+                    "have no record of their own at a line start" % missing)
         elif r["case"] == "clean-pre":
             key = "lines-append-to-terminated-file"
             what = "nsq_to_file: message(s) %s FINished but not a line of any file after appending to a newline-terminated file" % missing
@@ -76,5 +80,8 @@ def lines_leg(ctx, parent, corr_broken):
                     "are not a line of any file (Lean: Props.C19Lines.fin_owns_line_full_false; with fix F47 fin_owns_line_fixed)" % missing)
         ctx.violation(key, what, replay)
     ctx.corr["lines"] = rows
-    if len(rows) < 7:
-        corr_broken.append("lines leg: only %d of 7 scenarios reported" % len(rows))
+    if len([r for r in rows if not r["case"].startswith("gen-")]) < 7:
+        corr_broken.append("lines leg: only %d of 7 fixed scenarios reported" % len(rows))
+    gen = [r for r in rows if r["case"].startswith("gen-")]
+    ctx.corr["lines_generated"] = {"scripts": len(gen), "torn_initial_file": sum(1 for r in gen if "torn=true" in _unhex(r["notes"]).decode("latin1")),
+                                   "without_own_record": sum(1 for r in gen if r["owns"] != "true")}
